@@ -8,6 +8,7 @@ CONSTANTS
   RelDone = TRUE
   AcqWait = TRUE
   LockedNotify = FALSE
+  SpuriousWake = FALSE
 CONSTRAINT Track
 INVARIANT TraceInv
 POSTCONDITION TraceAccepted
